@@ -22,6 +22,7 @@ EXPLANATION = (
 EXPLANATION += ' R16.13: the declared codec name is normalised like tokenize._get_normal_name.  R16.14: the newline convention is captured after a read of the resource.'
 EXPLANATION += ' R16.12: the keyword search for the encoding declaration retries after a hit that no delimiter follows.'
 EXPLANATION += " R16.15: in the import tools the text of a statement is read without a leading byte order mark, and the rewritten module gets the mark of the original text back in front."
+EXPLANATION += " R16.16: in write_file the read that detects the newline convention is guarded by the convention being unknown (a read overwrites what undo has just set)."
 ASSUMPTIONS = ["str.encode() without argument means utf-8 (language definition)",
                "codec aliases are compared through codecs.lookup of the running interpreter"]
 
@@ -310,8 +311,12 @@ def _check_main(ctx, res) -> None:
                 if t.kind != "test":
                     continue
                 a_ = t.ast
-                if isinstance(a_, ast.Compare) and isinstance(a_.left, ast.Attribute) and a_.left.attr == "newlines" \
-                        and isinstance(a_.left.value, ast.Name) and a_.left.value.id == rparam \
+                # (`<r>.newlines is None`, or the same test on a local that was bound to `<r>.newlines`)
+                conv_locals = {tg.id for d_ in walk_local(wf_node) if isinstance(d_, ast.Assign) and isinstance(d_.value, ast.Attribute) and d_.value.attr == "newlines"
+                               and isinstance(d_.value.value, ast.Name) and d_.value.value.id == rparam for tg in d_.targets if isinstance(tg, ast.Name)}
+                if isinstance(a_, ast.Compare) and ((isinstance(a_.left, ast.Attribute) and a_.left.attr == "newlines"
+                                                     and isinstance(a_.left.value, ast.Name) and a_.left.value.id == rparam)
+                                                    or (isinstance(a_.left, ast.Name) and a_.left.id in conv_locals)) \
                         and isinstance(a_.comparators[0], ast.Constant) and a_.comparators[0].value is None:
                     lab = "false" if isinstance(a_.ops[0], ast.Is) else "true"
                     excused += [(t.id, b2, l) for b2, l in wcfg.succ[t.id] if l == lab]
@@ -320,6 +325,43 @@ def _check_main(ctx, res) -> None:
             if read_nodes and en.id not in wcfg.reachable(wcfg.entry.id, avoid_nodes=read_nodes, avoid_edges=excused):
                 callee_reads = True
     res.analysed["R16.3_callee_level_read"] = callee_reads
+    # ---- R16.16 the read that detects the convention happens ONLY when the convention is unknown.  `File.read()` overwrites
+    # `File.newlines` with what the file on disk has NOW; undo() has just put the convention of the OLD text there
+    # (`resource.newlines = self._old_newlines`).  A read on the way to the encoder that is not guarded by "the convention is None"
+    # throws that away: the text on disk (the new text, maybe without any line break) decides how the old text is written back.
+    conv_locals = {tg.id for d_ in walk_local(wf_node) if isinstance(d_, ast.Assign) and isinstance(d_.value, ast.Attribute) and d_.value.attr == "newlines"
+                   and isinstance(d_.value.value, ast.Name) and d_.value.value.id == rparam for tg in d_.targets if isinstance(tg, ast.Name)}
+
+    def unknown_test(t, pol) -> bool:
+        if not (isinstance(t, ast.Compare) and len(t.ops) == 1 and isinstance(t.comparators[0], ast.Constant) and t.comparators[0].value is None):
+            return False
+        subject = (isinstance(t.left, ast.Attribute) and t.left.attr == "newlines" and isinstance(t.left.value, ast.Name) and t.left.value.id == rparam) \
+            or (isinstance(t.left, ast.Name) and t.left.id in conv_locals)
+        return subject and (pol if isinstance(t.ops[0], ast.Is) else not pol)
+
+    n1616 = 0
+    for c in calls_in(wf_node):
+        if idx.resolve(wf.unit.modname, c.func) != ENC:
+            continue
+        en = wcfg.node_containing(c)[0]
+        for rn in wcfg.nodes:
+            if rn.ast is None or rn.kind not in ("stmt", "test"):
+                continue
+            if not any(isinstance(x.func, ast.Attribute) and x.func.attr == "read" and isinstance(x.func.value, ast.Name) and x.func.value.id == rparam
+                       for x in calls_in(rn.ast) + ([rn.ast] if isinstance(rn.ast, ast.Call) else [])):
+                continue
+            if not wcfg.exists_path(rn.id, en.id):
+                continue
+            n1616 += 1
+            ok = any(unknown_test(t, pol) for t, pol in wcfg.guards(rn.id))
+            res.add("R16.16", f"_ResourceOperations.write_file|the-detecting-read-only-when-the-convention-is-unknown#{n1616}", ok, f"{wf.unit.rel}:{rn.lineno}",
+                    "the file is read for its convention only when the File object does not know one" if ok else
+                    "write_file reads the file before encoding although the File object may already hold a convention: the read overwrites it with what is on disk now.  undo() has just "
+                    "set the convention of the OLD text (`resource.newlines = self._old_newlines`); when the text on disk has no line break, LF is detected and a CRLF file comes back "
+                    "from undo with LF line ends", function=wf.qualname)
+    if n1616 == 0:
+        # no read on the way to the encoder: nothing can overwrite the convention the caller has set (whether it is KNOWN is R16.3's question)
+        res.add("R16.16", "_ResourceOperations.write_file|no-read-before-encoding", True, wf.where, "write_file does not read the file before encoding", function=wf.qualname)
     for mname in ("do", "undo"):
         m = cc.methods.get(mname)
         if not m:
@@ -859,17 +901,39 @@ def newline_capture_rule(ctx, res, rule: str) -> None:
     node = _common.inlined(idx, do)
     cfg = CFG(node)
     n = 0
+
+    def is_convention(e) -> bool:
+        return isinstance(e, ast.Attribute) and e.attr == "newlines" and is_self_attr(e.value, "resource")
+
+    # where the convention is READ OFF the File object on its way into an attribute of the change: the store itself, or -- when the store
+    # takes a local (`self._old_newlines = _detect_newlines(self.resource)` read in place) -- the bindings of that local that reach the store
+    captures = []
     for nd in cfg.nodes:
         st = nd.ast
         if nd.kind != "stmt" or not isinstance(st, ast.Assign) or not any(is_self_attr(t) for t in st.targets):
             continue
-        if not (isinstance(st.value, ast.Attribute) and st.value.attr == "newlines" and is_self_attr(st.value.value, "resource")):
-            continue
+        if is_convention(st.value):
+            captures.append(nd)
+        elif isinstance(st.value, ast.Name):
+            defs = [d for d in cfg.nodes if d.kind == "stmt" and isinstance(d.ast, ast.Assign) and any(isinstance(t, ast.Name) and t.id == st.value.id for t in d.ast.targets)]
+            for d in defs:
+                v = d.ast.value
+                if isinstance(v, ast.Name):  # one more step (`_inl = newlines`)
+                    inner = [d2 for d2 in cfg.nodes if d2.kind == "stmt" and isinstance(d2.ast, ast.Assign) and any(isinstance(t, ast.Name) and t.id == v.id for t in d2.ast.targets)]
+                    for d2 in inner:
+                        if is_convention(d2.ast.value) and d.id in cfg.reachable(d2.id, avoid_nodes=[x.id for x in inner if x is not d2]):
+                            captures.append(d2)
+                elif is_convention(v) and nd.id in cfg.reachable(d.id, avoid_nodes=[x.id for x in defs if x is not d]):
+                    captures.append(d)
+    local_conv = {t.id for d in cfg.nodes if d.kind == "stmt" and isinstance(d.ast, ast.Assign) and is_convention(d.ast.value) for t in d.ast.targets if isinstance(t, ast.Name)}
+    for nd in captures:
+        st = nd.ast
         n += 1
         reads = [x.id for x in cfg.nodes if x.ast is not None and x.kind in ("stmt", "test") and any(
             call_name(c) == "read" and isinstance(c.func, ast.Attribute) and is_self_attr(c.func.value, "resource") for c in calls_in(x.ast) + ([x.ast] if isinstance(x.ast, ast.Call) else []))]
         known = [(x.id, b, lab) for x in cfg.nodes if x.kind == "test" and isinstance(x.ast, ast.Compare) and len(x.ast.ops) == 1
-                 and isinstance(x.ast.left, ast.Attribute) and x.ast.left.attr == "newlines" and isinstance(x.ast.comparators[0], ast.Constant) and x.ast.comparators[0].value is None
+                 and ((isinstance(x.ast.left, ast.Attribute) and x.ast.left.attr == "newlines") or (isinstance(x.ast.left, ast.Name) and x.ast.left.id in local_conv))
+                 and isinstance(x.ast.comparators[0], ast.Constant) and x.ast.comparators[0].value is None
                  for b, lab in cfg.succ[x.id] if lab == ("false" if isinstance(x.ast.ops[0], ast.Is) else "true")]
         # (a file that does not exist has no convention to detect)
         known += [(x.id, b, lab) for x in cfg.nodes if x.kind == "test" and isinstance(x.ast, ast.Call) and call_name(x.ast) == "exists"
